@@ -124,7 +124,7 @@ def grid_values():
     for ip, port, nonce, ua, sv in itertools.product(ips, (0, 2412, 65535), (0, 2**32 - 1), (b'', b'sashimi 0.1', b'u' * 255),
                                                      ([], [M.SupportedVersion(0)], [M.SupportedVersion(i) for i in range(3)])):
         yield 'Message', M.HelloMessage(sv, ip, port, ips[0], 65535 - port, nonce, ua)
-    for n in (0, 1, 3, 70, 127, 128):
+    for n in (0, 1, 3, 63, 64, 70, 127, 128, 255, 256, 499, 500, 501, 999, 1000, 1001, 8191, 8192, 16383, 16384):
         yield 'Message', M.GetBlocksMessage([H[i % 5] for i in range(n)], H[n % 5])
         yield 'Message', M.InventoryMessage([M.InventoryItem(M.DATA_BLOCK if i % 2 else M.DATA_TRANSACTION, H[i % 5]) for i in range(n)])
         yield 'Message', M.PeersMessage([M.Peer((i * 2**31) % 2**32, ips[i % 3], (i * 9973) % 65536) for i in range(n)])
